@@ -62,7 +62,12 @@ EdgeShapes == { Shape(v, a, m, al, "e", 0, 0, 0) : v \in V, a \in Edges, m \in {
 XLong == { Shape(v, IF v = 192 THEN 0 ELSE 3, m, IF v = 256 THEN 1 ELSE 0, "e", 0, 0, 0) :
              v \in V, m \in IF Thorough THEN {262149, 1048579} ELSE {262149} }
 
-RoundTrip == Lengths \cup Long \cup Align \cup EdgeShapes
+\* value classes at the ends of AD and message (driver: e ends in 00, t ends in a run of 00, 8 ends in 80 00.., z all zero,
+\* l begins with 00): a partial last word whose bytes look like padding, for every residue of both lengths
+ValueShapes == { [Shape(v, a, m, 0, "e", 0, 0, 0) EXCEPT !.cls = c] :
+                   v \in V, a \in {0, 1, 2, 3, 6, 7}, m \in {1, 2, 3, 4, 6, 7, 11}, c \in {"e", "z", "8", "l", "t"} }
+
+RoundTrip == Lengths \cup Long \cup Align \cup EdgeShapes \cup ValueShapes
 
 (***************************************************************************)
 (* Tamper classes of decryption shapes.  The position is chosen by the     *)
@@ -88,6 +93,10 @@ SivFamilies == { [v |-> v, adlen |-> a, mlen |-> m, nbits |-> IF Thorough THEN 2
                  v \in V, am \in {<<0, 33>>, <<40, 9>>, <<5, 64>>, <<70, 65>>, <<0, 130>>, <<130, 16>>}
                             \cup IF Thorough THEN {<<257, 257>>, <<0, 1025>>, <<1025, 8>>} ELSE {} }
 
+\* ... and families whose AD / message end in bytes that look like padding (see ValueShapes)
+SivValueFamilies == { [v |-> v, adlen |-> a, mlen |-> m, nbits |-> 3, cls |-> c, kcls |-> "r"] :
+                        v \in V, a \in {0, 2, 3, 7}, m \in {1, 2, 3, 6, 7}, c \in {"e", "z", "t"} }
+
 \* C04 long packets: lengths x pre-fill x tamper x alias
 BigLens == IF Thorough THEN (0..40) \cup {63, 64, 65, 255, 256, 257, 1023, 1024, 1025, 4095, 4096, 4097, 65535, 65536, 65537, 1048576}
            ELSE {0, 1, 2, 3, 4, 5, 7, 8, 15, 16, 17, 31, 32, 33, 34, 35, 36, 40, 63, 64, 65, 255, 256, 257, 1023, 1025, 4097, 65537}
@@ -96,7 +105,7 @@ Big == { [v |-> v, adlen |-> a, mlen |-> m, alias |-> al, pf |-> pf, tam |-> t] 
 
 Plan == CASE Family = "roundtrip" -> RoundTrip
           [] Family = "tamper"    -> Tamper
-          [] Family = "sivfam"    -> SivFamilies
+          [] Family = "sivfam"    -> SivFamilies \cup SivValueFamilies
           [] Family = "big"       -> Big
           [] Family = "xlong"     -> XLong
 
